@@ -39,6 +39,9 @@ func (x *Exec) sortOf(t types.Type) Sort {
 	if isLogType(t) {
 		return SInt // logging values are opaque (DESIGN.md 3.6 "Dropped")
 	}
+	if isReflectType(t) {
+		return SInt // descriptors, resolved statically (DESIGN.md 3.5)
+	}
 	switch u := t.Underlying().(type) {
 	case *types.Basic:
 		switch {
@@ -235,7 +238,32 @@ func elemTypeOf(t types.Type) types.Type {
 }
 
 func (x *Exec) constArray(s Sort, v Term) Term {
-	return Term{fmt.Sprintf("((as const %s) %s)", s, v.S), s}
+	if isValueLiteral(v.S) {
+		return Term{fmt.Sprintf("((as const %s) %s)", s, v.S), s}
+	}
+	// cvc5 accepts only value constants in (as const ...): use a named array with an axiom
+	name := "constarr_" + sortKey(s) + "_" + mangle(truncate(v.S, 40))
+	if !x.ctx.declared[name] {
+		x.ctx.declRaw(name, fmt.Sprintf("(declare-const %s %s)", name, s))
+		k, _ := arrayParts(s)
+		x.ctx.Axiom(fmt.Sprintf("(forall ((i %s)) (! (= (select %s i) %s) :pattern ((select %s i))))", k, name, v.S, name))
+	}
+	return Term{name, s}
+}
+
+func isValueLiteral(s string) bool {
+	if s == "true" || s == "false" {
+		return true
+	}
+	if len(s) == 0 {
+		return false
+	}
+	for _, c := range s {
+		if !(c >= '0' && c <= '9' || c == '.') {
+			return strings.HasPrefix(s, "(- ") && isValueLiteral(strings.TrimSuffix(s[3:], ")"))
+		}
+	}
+	return true
 }
 
 // typeFacts returns the type invariants of a value of Go type t (DESIGN.md 3.3).
